@@ -50,8 +50,13 @@ except ImportError:
 
 __all__ = ["Response"]
 
-_PARAM_RE = re.compile(r'([a-z0-9]+)=(?:"([^"]*)"|([a-z0-9_.-]*))', re.I)
+# parameter = token "=" ( token / quoted-string ); a quoted-string may hold
+# quoted-pairs (RFC 7230 3.2.6)
+_PARAM_RE = re.compile(
+    r'([a-z0-9!#$%&\'*+.^_`|~-]+)=(?:"((?:[^"\\]|\\.)*)"|([a-z0-9_.-]*))', re.I
+)
 _OK_PARAM_RE = re.compile(r"^[a-z0-9_.-]+$", re.I)
+_QUOTED_PAIR_RE = re.compile(r"\\(.)")
 
 _gzip_header = b"\x1f\x8b\x08\x00\x00\x00\x00\x00\x02\xff"
 
@@ -979,7 +984,11 @@ class Response:
         result = {}
 
         for match in _PARAM_RE.finditer(params):
-            result[match.group(1)] = match.group(2) or match.group(3) or ""
+            value = match.group(2)
+
+            if value is not None:
+                value = _QUOTED_PAIR_RE.sub(r"\1", value)
+            result[match.group(1)] = value or match.group(3) or ""
 
         return result
 
@@ -993,7 +1002,7 @@ class Response:
 
         for k, v in sorted(value_dict.items()):
             if not _OK_PARAM_RE.search(v):
-                v = '"%s"' % v.replace('"', '\\"')
+                v = '"%s"' % v.replace("\\", "\\\\").replace('"', '\\"')
             params.append(f"; {k}={v}")
         ct = self.headers.pop("Content-Type", "").split(";", 1)[0]
         ct += "".join(params)
